@@ -295,7 +295,8 @@ theorem cmd_one (na : Bool) (st : St SimSt) (c : Str) (b : Behav) (q : List Beha
     o.2.trace = st.trace ++ c :: (if validOut b.out && needOf b then rearmLines na else []) ∧
     o.2.warns = st.warns ++ warnsOf c b.out ∧
     (validOut b.out = true → o.1 = .ok () ∧ Ready o.2 ∧ o.2.dev.queue = q) ∧
-    (validOut b.out = false → ∃ R, o.1 = .abort (.unexpectedOutput c R) ∧ neLines R = neLines b.out) := by
+    (validOut b.out = false → ∃ R, o.1 = .abort (.unexpectedOutput c R) ∧ neLines R = neLines b.out) ∧
+    (o.2.dev.parts = [] ∧ o.2.reloadActive = true) := by
   intro o
   have hsplit : splitOnNL c = [c] := splitOnNL_no_nl c hc.clean.noNL
   have hstep : (simDevice [] na).step st.dev c = ({ st.dev with queue := q }, replyFor c b) := by
@@ -318,11 +319,12 @@ theorem cmd_one (na : Bool) (st : St SimSt) (c : Str) (b : Behav) (q : List Beha
       rw [hck, checkRes_invalid _ _ _ _ hv]
     rw [bindM_of_abort _ _ _ _ hres, hck] at ho
     rw [ho]
-    refine ⟨?_, ?_, ?_, ?_⟩
+    refine ⟨?_, ?_, ?_, ?_, ?_⟩
     · simp [st1]
     · simp [st1]
     · intro h; cases h
     · intro _; exact ⟨R, rfl, hR⟩
+    · refine ⟨?_, ?_⟩ <;> first | exact hr.parts | exact hr.active | rfl | (simp [st1, pureM] <;> first | exact hr.parts | exact hr.active) | (simp [st2, st1, pureM] <;> first | exact hr.parts | exact hr.active)
   | true =>
     have hres : (check c st1).1 = .ok (needOf b) := by rw [hck, checkRes_valid _ _ _ _ hv]
     rw [bindM_snd_of_ok _ _ _ _ hres, hck] at ho
@@ -331,20 +333,22 @@ theorem cmd_one (na : Bool) (st : St SimSt) (c : Str) (b : Behav) (q : List Beha
     | false =>
       rw [hn] at ho; simp only [Bool.false_eq_true, if_false] at ho
       rw [ho]
-      refine ⟨?_, ?_, ?_, ?_⟩
+      refine ⟨?_, ?_, ?_, ?_, ?_⟩
       · simp [st1, pureM]
       · simp [st1, pureM]
       · intro _; exact ⟨rfl, ⟨rfl, hr.active, hr.parts⟩, rfl⟩
       · intro h; cases h
+      · refine ⟨?_, ?_⟩ <;> first | exact hr.parts | exact hr.active | rfl | (simp [st1, pureM] <;> first | exact hr.parts | exact hr.active) | (simp [st2, st1, pureM] <;> first | exact hr.parts | exact hr.active)
     | true =>
       rw [hn] at ho; simp only [if_true] at ho
       rw [extendReload_sim na _ (by simp) (by simp [st1]; exact hr.parts)] at ho
       rw [ho]
-      refine ⟨?_, ?_, ?_, ?_⟩
+      refine ⟨?_, ?_, ?_, ?_, ?_⟩
       · simp [st1]
       · simp [st1]
       · intro _; exact ⟨rfl, ⟨rfl, rfl, hr.parts⟩, rfl⟩
       · intro h; cases h
+      · refine ⟨?_, ?_⟩ <;> first | exact hr.parts | exact hr.active | rfl | (simp [st1, pureM] <;> first | exact hr.parts | exact hr.active) | (simp [st2, st1, pureM] <;> first | exact hr.parts | exact hr.active)
 
 
 /-- one joined two-command line; the first half carries no probing placement -/
@@ -358,7 +362,8 @@ theorem cmd_two (na : Bool) (st : St SimSt) (c1 c2 : Str) (b1 b2 : Behav) (q : L
     (validOut b1.out = true → validOut b2.out = true → o.1 = .ok () ∧ Ready o.2 ∧ o.2.dev.queue = q) ∧
     (validOut b1.out = false → ∃ R, o.1 = .abort (.unexpectedOutput c1 R) ∧ neLines R = neLines b1.out) ∧
     (validOut b1.out = true → validOut b2.out = false →
-      ∃ R, o.1 = .abort (.unexpectedOutput c2 R) ∧ neLines R = neLines b2.out) := by
+      ∃ R, o.1 = .abort (.unexpectedOutput c2 R) ∧ neLines R = neLines b2.out) ∧
+    (o.2.dev.parts = [] ∧ o.2.reloadActive = true) := by
   intro o
   have hsplit : splitOnNL (c1 ++ '\n' :: c2) = [c1, c2] := by
     rw [splitOnNL_append_nl, splitOnNL_no_nl c1 hc1.clean.noNL, splitOnNL_no_nl c2 hc2.clean.noNL]; rfl
@@ -397,12 +402,13 @@ theorem cmd_two (na : Bool) (st : St SimSt) (c1 c2 : Str) (b1 b2 : Behav) (q : L
       rw [hck1, checkRes_invalid _ _ _ _ hv1]
     rw [bindM_of_abort _ _ _ _ hres, hck1] at ho
     rw [ho]
-    refine ⟨?_, ?_, ?_, ?_, ?_⟩
+    refine ⟨?_, ?_, ?_, ?_, ?_, ?_⟩
     · simp [st1]
     · simp [st1]
     · intro h; cases h
     · intro _; exact ⟨R1, rfl, hR1⟩
     · intro h; cases h
+    · refine ⟨?_, ?_⟩ <;> first | exact hr.parts | exact hr.active | rfl | (simp [st1, pureM] <;> first | exact hr.parts | exact hr.active) | (simp [st2, st1, pureM] <;> first | exact hr.parts | exact hr.active)
   | true =>
     have hres : (check c1 st1).1 = .ok (needOf b1) := by rw [hck1, checkRes_valid _ _ _ _ hv1]
     rw [bindM_snd_of_ok _ _ _ _ hres, hck1] at ho
@@ -415,12 +421,13 @@ theorem cmd_two (na : Bool) (st : St SimSt) (c1 c2 : Str) (b1 b2 : Behav) (q : L
         rw [bindM_of_abort _ _ _ _ hres2]
       rw [bindM_of_abort _ _ _ _ hin, bindM_of_abort _ _ _ _ hres2, hck2] at ho
       rw [ho]
-      refine ⟨?_, ?_, ?_, ?_, ?_⟩
+      refine ⟨?_, ?_, ?_, ?_, ?_, ?_⟩
       · simp [st2, st1]
       · simp [st2, st1]
       · intro _ h; cases h
       · intro h; cases h
       · intro _ _; exact ⟨R2, rfl, hR2⟩
+      · refine ⟨?_, ?_⟩ <;> first | exact hr.parts | exact hr.active | rfl | (simp [st1, pureM] <;> first | exact hr.parts | exact hr.active) | (simp [st2, st1, pureM] <;> first | exact hr.parts | exact hr.active)
     | true =>
       have hres2 : (check c2 st2).1 = .ok (needOf b2) := by rw [hck2, checkRes_valid _ _ _ _ hv2]
       have hin : bindM (check c2) (fun n2 => pureM (needOf b1 || n2)) st2 =
@@ -432,21 +439,23 @@ theorem cmd_two (na : Bool) (st : St SimSt) (c1 c2 : Str) (b1 b2 : Behav) (q : L
       | false =>
         rw [hn] at ho; simp only [Bool.false_eq_true, if_false] at ho
         rw [ho]
-        refine ⟨?_, ?_, ?_, ?_, ?_⟩
+        refine ⟨?_, ?_, ?_, ?_, ?_, ?_⟩
         · simp [st2, st1, pureM]
         · simp [st2, st1, pureM]
         · intro _ _; exact ⟨rfl, ⟨rfl, hr.active, hr.parts⟩, rfl⟩
         · intro h; cases h
         · intro _ h; cases h
+        · refine ⟨?_, ?_⟩ <;> first | exact hr.parts | exact hr.active | rfl | (simp [st1, pureM] <;> first | exact hr.parts | exact hr.active) | (simp [st2, st1, pureM] <;> first | exact hr.parts | exact hr.active)
       | true =>
         rw [hn] at ho; simp only [if_true] at ho
         rw [extendReload_sim na _ (by simp) (by simp [st2, st1]; exact hr.parts)] at ho
         rw [ho]
-        refine ⟨?_, ?_, ?_, ?_, ?_⟩
+        refine ⟨?_, ?_, ?_, ?_, ?_, ?_⟩
         · simp [st2, st1]
         · simp [st2, st1]
         · intro _ _; exact ⟨rfl, ⟨rfl, rfl, hr.parts⟩, rfl⟩
         · intro h; cases h
         · intro _ h; cases h
+        · refine ⟨?_, ?_⟩ <;> first | exact hr.parts | exact hr.active | rfl | (simp [st1, pureM] <;> first | exact hr.parts | exact hr.active) | (simp [st2, st1, pureM] <;> first | exact hr.parts | exact hr.active)
 
 end NA.Ios
